@@ -8,6 +8,9 @@
     pdu.DecodeError or yields a PDU that re-encodes/decodes to field-wise equal
     PDU, agrees with the independent reading where the format is definite, and
     (c) inside an aggregate a sub-PDU is decoded from its own bytes only.
+(d) one object encoded more than once: encode() does not change the object,
+    and after assigning other values to its attributes (all at once, each one
+    alone) the next encoding decodes to the new values.
 """
 import itertools
 import struct
@@ -230,6 +233,101 @@ def check_constructive(spec):
     return None
 
 
+# -- (d) one object encoded more than once ------------------------------------
+# "For every well-formed PDU object, decoding its encoding yields the same
+# field values": also for an object that was encoded before and whose
+# attributes were assigned afterwards (the stack itself assigns N(S)/N(R) late
+# and re-sends PDU objects), and encode() itself must not change the object.
+REUSE_PAIRS = [
+    (('Symmetry', 0, 0), ('Symmetry', 0, 0)),
+    (('UnnumberedInformation', 4, 32, pat(3)),
+     ('UnnumberedInformation', 16, 33, pat(5, 9))),
+    (('Connect', 4, 32, 128, 1, None), ('Connect', 1, 33, 1024, 0, b'urn:x')),
+    (('Connect', 1, 33, 2175, 15, b'urn:nfc:sn:y'),
+     ('Connect', 16, 34, 128, 1, None)),
+    (('Disconnect', 16, 17), ('Disconnect', 18, 19)),
+    (('ConnectionComplete', 32, 16, 128, 1),
+     ('ConnectionComplete', 33, 17, 2175, 0)),
+    (('ConnectionComplete', 32, 16, 1024, 15),
+     ('ConnectionComplete', 33, 17, 128, 1)),
+    (('DisconnectedMode', 5, 6, 0x21), ('DisconnectedMode', 7, 8, 2)),
+    (('FrameReject', 7, 8, 1, 2, 3, 4, 5, 6, 7, 8),
+     ('FrameReject', 9, 10, 8, 13, 9, 10, 11, 12, 13, 14)),
+    (('Information', 20, 21, 3, 9, pat(2)),
+     ('Information', 22, 23, 10, 2, pat(7, 3))),
+    (('Information', 20, 21, 15, 0, pat(128)),
+     ('Information', 63, 1, 0, 15, b'')),
+    (('ReceiveReady', 22, 23, 5), ('ReceiveReady', 24, 25, 12)),
+    (('ReceiveNotReady', 24, 25, 6), ('ReceiveNotReady', 26, 27, 0)),
+    (('ServiceNameLookup', 1, 1, [(1, b'abc')], [(2, 16)]),
+     ('ServiceNameLookup', 1, 1, [(3, b'de'), (4, b'f')], [])),
+    (('DataProtectionSetup', 0, 0, pat(64), pat(8)),
+     ('DataProtectionSetup', 0, 0, None, pat(8, 1))),
+    (('ParameterExchange', 0, 0, 0x13, 5, 3, 10, 3),
+     ('ParameterExchange', 0, 0, 0x10, 0x7FF, 0x8001, 255, 1)),
+]
+
+
+def attr_names(p, cls):
+    """Constructor parameter -> instance attribute holding it (None: the
+    class keeps it under a name this harness does not know; skipped)."""
+    import inspect
+    out = []
+    for a in list(inspect.signature(cls.__init__).parameters)[1:]:
+        for cand in ('rej_' + a, a, '_' + a):
+            if cand in vars(p):
+                out.append(cand)
+                break
+        else:
+            out.append(None)
+    return out
+
+
+def check_reuse(pair):
+    import nfc.llcp.pdu as pdu
+    s1, s2 = pair
+    cls = getattr(pdu, s1[0])
+    name = s1[0]
+    try:
+        p = build(s1)
+        e1 = p.encode()
+        if p.encode() != e1 or fields(p) != expect_fields(s1):
+            return ('d|encode-changes-object|%s' % name,
+                    dict(spec=repr(s1), first=e1, second=p.encode()))
+        names = attr_names(p, cls)
+        plans = [('all', list(range(len(names))))] + [
+            (names[i], [i]) for i in range(len(names))]
+        for label, idx in plans:
+            p = build(s1)
+            p.encode()
+            len(p)
+            spec = list(s1)
+            for i in idx:
+                if names[i] is None or s1[1 + i] == s2[1 + i]:
+                    continue
+                v = s2[1 + i]
+                setattr(p, names[i], list(v) if isinstance(v, list) else v)
+                spec[1 + i] = v
+            want = expect_fields(tuple(spec))
+            try:
+                enc = p.encode()
+            except pdu.EncodeError:
+                continue          # a combination the class refuses to encode
+            if len(p) != len(enc):
+                return ('d|len-after-assignment|%s|%s' % (name, label),
+                        dict(first=repr(s1), then=repr(tuple(spec)),
+                             len=len(p), encoded=enc))
+            got = fields(pdu.decode(enc))
+            if got != want:
+                return ('d|stale-encoding|%s|%s' % (name, label),
+                        dict(first=repr(s1), then=repr(tuple(spec)),
+                             encoded=enc, want=want, got=got))
+    except Exception as e:
+        return ('d|%s|%s' % (name, sig_exc(e)),
+                dict(pair=repr(pair), error=repr(e)))
+    return None
+
+
 # -- (b) destructive ---------------------------------------------------------
 def tails():
     """Tails from the TLV boundary grammar (DESIGN C07/C11)."""
@@ -398,6 +496,17 @@ def work(unit):
             else:
                 run.fail(v[0], v[1], key)
         run.sample(dict(kind='constructive', spec=arg[0]))
+    elif kind == 'd':
+        for pair in arg:
+            for pr in (pair, (pair[1], pair[0])):
+                v = check_reuse(pr)
+                key = ('d', repr(pr))
+                if v is None:
+                    run.ok(key)
+                    run.outcome(('d', pr[0][0]))
+                else:
+                    run.fail(v[0], v[1], key)
+        run.sample(dict(kind='reuse', pair=repr(arg[0])))
     elif kind == 'b':
         for b in arg:
             v, out = check_bytes(b)
@@ -442,6 +551,7 @@ def units(tier):
     out = []
     specs = list(constructive_specs(tier))
     out += [('a', c) for c in par.chunks(specs, 64)]
+    out += [('d', c) for c in par.chunks(REUSE_PAIRS, 4)]
     short = [b for n in (0, 1, 2) for b in all_bytes(n)]
     out += [('b', c) for c in par.chunks(short, 16)]
     if thorough:
@@ -477,10 +587,14 @@ def main(tier='quick', seed=0, part=None):
         "lists of 0..3; AGF of 1..%d representative sub-PDUs); (b) every byte "
         "string of length 0..%d, every 2-byte header x TLV-boundary tails, "
         "nested AGF up to depth 541; (c) each of those as first sub-PDU of an "
-        "aggregate with 4 different followers.  distinct = distinct spec / "
+        "aggregate with 4 different followers; (d) %d pairs of PDUs per class, "
+        "both directions: object built from the first, encoded, attributes "
+        "assigned from the second (all / each alone), encoded again.  "
+        "distinct = distinct spec / "
         "byte string; non-trivial = constructive case, or byte string that "
         "decodes to a PDU" % (3 if tier == 'thorough' else 2,
-                              3 if tier == 'thorough' else 2))
+                              3 if tier == 'thorough' else 2,
+                              len(REUSE_PAIRS)))
     run.assumptions += [
         "ref/llcp_codec.py is an independent reading of LLCP 1.3; inputs whose "
         "reading the format leaves open are checked for self-consistency only",
